@@ -11,6 +11,7 @@
 (*   "any"     answered with an error, ignored, or the session is closed                         *)
 (*   "sent"    (lal as client) the upstream sent the element; whatever the session does with it  *)
 (*             is fine as long as the process lives                                               *)
+(*   "refused" an API call is answered with an error code and the session stays                   *)
 (* and in no case allows the process to die or a panic to be recovered by a server loop.  After  *)
 (* a scenario a bystander session opened before it still answers and a new well-formed session   *)
 (* is served.  The concretisation of classes to bytes is harness/proj/surf.go.                   *)
@@ -42,6 +43,19 @@ WsExpect(st, e) == "any"
 (* Datagram surfaces: an RTP / RTCP datagram (RTSP publisher) or a PS-in-RTP packet (GB28181)    *)
 (* is processed or dropped; the session it was sent to stays.                                   *)
 DgramExpect(e) == "alive"
+
+(* GB28181 over TCP - the PubSession that start_rtp_pub with is_tcp_flag = 1 puts behind a listener; a     *)
+(* connection carries frames "2-byte length + RTP packet".  Whatever a peer does on connections - any      *)
+(* declared length with any amount of data behind it, any payload, any cutting into writes, further        *)
+(* connections (the newest replaces the one before), connections that say nothing and close - leaves the   *)
+(* session in place.  The API ends it (kick_session: "closed"), refuses a second start for the stream name  *)
+(* and a kick with another session id ("refused": answered with an error, the session stays); the tick of  *)
+(* the liveness timeout ends it or not - either is fine for this property.                                 *)
+PstExpect(e) ==
+  CASE e.k = "api" /\ e.a = "kick" -> "closed"
+    [] e.k = "api" /\ e.a \in {"start2", "start2_udp", "kick_other"} -> "refused"
+    [] e.k = "api" /\ e.a = "tick" -> "any"
+    [] OTHER -> "alive"
 
 (* SDP surface: step 1 = ANNOUNCE with the classed SDP, step 2 = the publisher goes on (SETUP,    *)
 (* RECORD, media of both tracks).  The well-formed SDP must be accepted.                          *)
@@ -83,8 +97,9 @@ Expect(surf, st, first, e) ==
     [] surf = "ws" -> WsExpect(st, e)
     [] surf \in {"rtp", "ps", "psq", "udp"} -> DgramExpect(e)
     [] surf = "sdp" -> SdpExpect(first, e)
+    [] surf = "pst" -> PstExpect(e)
 
-Kinds == {"ok", "alive", "closed", "any", "okmedia", "ws101", "sent"}
+Kinds == {"ok", "alive", "closed", "any", "okmedia", "ws101", "sent", "refused"}
 
 (* What the peer may see for an expectation: obs = [codes, alive, panic, note].                  *)
 All200(codes) == \A i \in 1..Len(codes) : codes[i] = 200
@@ -98,9 +113,10 @@ Allowed(x, obs) ==
        [] x = "any" -> Len(obs.codes) <= 3
        [] x = "ws101" -> obs.alive /\ obs.codes = <<101>>
        [] x = "sent" -> TRUE
+       [] x = "refused" -> obs.alive /\ Len(obs.codes) = 1 /\ obs.codes[1] # 200   \* an API error code
 
 (* Outcomes the model explores for an expectation: does the session stay?                        *)
-Stays(x) == CASE x \in {"ok", "alive", "okmedia", "ws101", "sent"} -> {TRUE} [] x = "closed" -> {FALSE} [] OTHER -> {TRUE, FALSE}
+Stays(x) == CASE x \in {"ok", "alive", "okmedia", "ws101", "sent", "refused"} -> {TRUE} [] x = "closed" -> {FALSE} [] OTHER -> {TRUE, FALSE}
 
 (* End of a scenario: the process is alive, no server loop had to recover a panic, only the       *)
 (* offending session is gone.                                                                   *)
